@@ -152,6 +152,17 @@ pub proof fn lemma_penalty_split(total: nat, n: nat)
     assert(n * (half / n) <= half) by (nonlinear_arith) requires half == n * (half / n) + half % n, half % n >= 0;
 }
 
+/// floor(floor(n*d/m)/d) == floor(n/m)  (Decimal::from_ratio(n, m).to_uint_floor())
+pub proof fn lemma_nested_floor_dec(n: nat, m: nat, d: nat)
+    requires m > 0, d > 0,
+    ensures ((n * d) / m) / d == n / m,
+{
+    vstd::arithmetic::div_mod::lemma_div_denominator((n * d) as int, m as int, d as int);
+    assert(m * d == d * m) by (nonlinear_arith);
+    vstd::arithmetic::div_mod::lemma_div_multiples_vanish_quotient(d as int, n as int, m as int);
+    assert(d * n == n * d) by (nonlinear_arith);
+}
+
 pub proof fn lemma_mul_div_cancel_dec(a: nat, s: nat)
     ensures ((a * DEC) * s) / DEC == a * s, (a * DEC) / 1 == a * DEC,
 {
